@@ -31,8 +31,11 @@ StepC(input, acc) ==
            issvc == InFetch(s.pc) /\ Instr(s) = 13 * 16 + 3 /\ s.o = 0
            sp == Rd(s.mem, 1)
            ac == IF InFetch(s.pc) THEN Access(s, input) ELSE [f |-> 0, l |-> {}, w |-> {}]
-           unw1 == acc.unw \/ \E ad \in ac.l : ad >= acc.imgwords /\ ad \notin acc.stored
-           acc1 == [acc EXCEPT !.stored = @ \cup ac.w, !.unw = unw1]
+           unwnow == \E ad \in ac.l : ad >= acc.imgwords /\ ad \notin acc.stored
+           unw1 == acc.unw \/ unwnow
+           \* the same, not counting the exit call's own load of its value (binaries written by xhexb exit without ever storing one)
+           unwx1 == acc.unwx \/ (unwnow /\ ~(issvc /\ s.a = 0))
+           acc1 == [acc EXCEPT !.stored = @ \cup ac.w, !.unw = unw1, !.unwx = unwx1]
        IN IF t.st = "undef" \/ ~issvc THEN [acc1 EXCEPT !.s = t]
           ELSE [acc1 EXCEPT !.s = t, !.calls = Append(acc.calls,
                    CASE s.a = 0 -> <<0, Rd(s.mem, Add(sp, 2))>>
@@ -48,12 +51,12 @@ RunN(input, acc, n) ==     \* exactly n instructions (or until the machine stops
 Pairs(sq) == [i \in 1..Len(sq) |-> <<sq[i][1], sq[i][2]>>]
 Verdict(r) ==
   LET input == InputOf(r)
-      f == RunN(input, [s |-> State0(MemOf(r.img)), calls |-> <<>>, stored |-> {}, unw |-> FALSE, imgwords |-> r.imgwords], r.obs.steps)
+      f == RunN(input, [s |-> State0(MemOf(r.img)), calls |-> <<>>, stored |-> {}, unw |-> FALSE, unwx |-> FALSE, imgwords |-> r.imgwords], r.obs.steps)
       t == f.s
       stdout == SelectSeq(t.out, LAMBDA e : e[1] = 0)
       files == FoldLeft(LAMBDA a, c : a \o SelectSeq(t.out, LAMBDA e : e[1] = c), <<>>, <<1, 2, 3, 4, 5, 6, 7, 8>>)
       consumed == IF t.ip[1] - 1 > Len(r.input) THEN Len(r.input) ELSE t.ip[1] - 1
-      base == [id |-> r.id, n |-> t.n, st |-> t.st, unw |-> f.unw]
+      base == [id |-> r.id, n |-> t.n, st |-> t.st, unw |-> f.unw, unwx |-> f.unwx]
       fail(why) == base @@ [v |-> "bad", why |-> why]
   IN IF t.st = "undef" THEN base @@ [v |-> "skip", why |-> t.why]
      ELSE IF r.obs.status \in {"unsafe", "throw", "limit"} THEN
